@@ -1,3 +1,4 @@
+import os
 """Proposition models: AST generator, builder (AST -> puan objects), dumper (puan objects ->
 Coq `prop` terms), the id oracle and an independent reference evaluator."""
 import random, itertools, json
@@ -153,8 +154,9 @@ KINDS = ["AtLeast", "AtLeastS", "AtMost", "All", "Any", "Xor", "XNor", "Imply", 
 
 class ModelGen:
     """Structured generator of proposition ASTs over a small leaf alphabet."""
-    def __init__(self, rng, nleaf=None, int_leaves=0.35, big=0.05, share=0.15, explicit=0.6, kinds=None, prefix="", strleaf=0.3, constvar=0.0, huge=0.2):
+    def __init__(self, rng, nleaf=None, int_leaves=0.35, big=0.05, share=0.15, explicit=0.6, kinds=None, prefix="", strleaf=0.3, constvar=0.0, huge=0.2, empty=0.0):
         self.rng = rng
+        self.empty = empty            # share of compounds without any sub-proposition (All(), AtLeast(k, []): legal constructor input)
         self.constvar = constvar
         self.share = share
         self.explicit = explicit
@@ -202,6 +204,8 @@ class ModelGen:
         return r
     def children(self, depth, kmin=1, kmax=3):
         rng = self.rng
+        if self.empty and kmin == 1 and kmax == 3 and rng.random() < self.empty:
+            return []
         k = rng.randint(kmin, kmax)
         out, used = [], set()
         for _ in range(k):
@@ -422,13 +426,31 @@ def reachable_ids(p, d):
     go(p)
     return out
 
-def gen_valid(rng, n, res, depth_max=3, tries_factor=6, want=lambda m: True, **kw):
+def wide_ast(rng):
+    """a node over dozens of leaves (a package of forty options), alone or next to a small sub-proposition, under an optional parent"""
+    n = rng.randint(24, 44)
+    leaves = [{"k": "str", "id": "w%02d" % i} if rng.random() < 0.8 else {"k": "var", "id": "w%02d" % i, "b": [0, 1] if rng.random() < 0.6 else [rng.randint(-2, 0), rng.randint(1, 3)]} for i in range(n)]
+    if rng.random() < 0.4:
+        leaves.insert(rng.randrange(n), {"k": rng.choice(["Any", "All", "AtMost"]), "v": 1, "ch": [{"k": "str", "id": "p"}, {"k": "str", "id": "q"}], "id": rng.choice(["S", None])})
+    kind = rng.choice(["AtLeast", "AtMost", "All", "Any", "Xor", "AtLeast"])
+    node = {"k": kind, "v": rng.choice([1, 2, n // 2, n - 1, n]), "s": None, "ch": leaves, "id": rng.choice(["Wide", None])}
+    r = rng.random()
+    if r < 0.25:
+        return {"k": "Imply", "ch": [{"k": "str", "id": "c"}, node], "id": rng.choice(["I", None])}
+    if r < 0.4:
+        return {"k": "Not", "ch": [node], "id": None}
+    return node
+
+def gen_valid(rng, n, res, depth_max=3, tries_factor=6, want=lambda m: True, wide=0.0, **kw):
     """n validated, plain (single definitions, no by-id leaf references) models as (ast, model)"""
     out, tries = [], 0
+    wrng = random.Random(rng.getrandbits(32)) if wide else None      # its own stream: the other models stay what they were
     while len(out) < n and tries < n * tries_factor:
         tries += 1
         g = ModelGen(random.Random(rng.getrandbits(64)), **kw)
         ast = g.prop(rng.randint(0, depth_max))
+        if wide and wrng.random() < wide:
+            ast = wide_ast(wrng); res.count("wide_node_models")
         try:
             m = build(ast)
             if is_var(m) or m.errors() or not plain(m, allow_const=True) or not want(m):
